@@ -8,8 +8,19 @@ import (
 	bolt "go.etcd.io/bbolt"
 )
 
-var u32 = binary.BigEndian.Uint32
-var u64 = binary.BigEndian.Uint64
+// a field that was never written (the API allows partial records) reads as 0 instead of panicking
+var u32 = func(b []byte) uint32 {
+	if len(b) < 4 {
+		return 0
+	}
+	return binary.BigEndian.Uint32(b)
+}
+var u64 = func(b []byte) uint64 {
+	if len(b) < 8 {
+		return 0
+	}
+	return binary.BigEndian.Uint64(b)
+}
 
 func i64ToB(value int64) []byte {
 	oct := make([]byte, 8)
